@@ -89,3 +89,120 @@ package cgroup
 //@   ensures result.1 == nil ==> result.0 != nil && !cg_existing(result.0)
 //@   loop 0: invariant 0 <= try && try < 10000
 
+
+//@ global pkg/cgroup.ErrNotInitialized props C20: invariant ErrNotInitialized != nil
+
+// ---- units table (C20): which control file each reading comes from / each limit goes to, and the scaling ----
+//@ func pkg/cgroup.readFile
+//@   trusted "os.ReadFile retried on EINTR"
+//@   pure
+//@ func pkg/cgroup.writeFile
+//@   trusted "os.WriteFile retried on EINTR"
+//@   pure
+
+//@ func pkg/cgroup.(*V2).ReadFile
+//@   arith int
+//@   requires c != nil
+//@   assigns nothing
+//@ func pkg/cgroup.(*V2).WriteFile
+//@   arith int
+//@   requires c != nil
+//@   assigns nothing
+//@ func pkg/cgroup.(*V2).ReadUint props C20
+//@   arith int
+//@   requires c != nil
+//@   assigns nothing
+//@   abstracts result.1 == nil ==> result.0 == cgval(c.path, filename)
+//@ func pkg/cgroup.(*V2).WriteUint props C20
+//@   arith int
+//@   requires c != nil
+//@   assigns X.n, X.dir, X.file, X.val
+//@   abstracts result == nil ==> X.n == old(X.n) + 1 && X.dir == c.path && X.file == filename && X.val == i
+//@   abstracts result != nil ==> X.n == old(X.n)
+
+// v2: memory in bytes from memory.current / memory.peak, process count from pids.peak, CPU time in ns =
+// usage_usec of cpu.stat times 1000; limits go to memory.max / pids.max with the value given
+//@ func pkg/cgroup.(*V2).MemoryUsage props C20
+//@   arith int
+//@   requires c != nil && c.control != nil
+//@   assigns nothing
+//@   ensures result.1 == nil ==> result.0 == cgval(c.path, "memory.current")
+//@ func pkg/cgroup.(*V2).MemoryMaxUsage props C20
+//@   arith int
+//@   requires c != nil && c.control != nil
+//@   assigns nothing
+//@   ensures result.1 == nil ==> result.0 == cgval(c.path, "memory.peak")
+//@ func pkg/cgroup.(*V2).ProcessPeak props C20
+//@   arith int
+//@   requires c != nil && c.control != nil
+//@   assigns nothing
+//@   ensures result.1 == nil ==> result.0 == cgval(c.path, "pids.peak")
+//@ func pkg/cgroup.(*V2).SetMemoryLimit props C20
+//@   arith int
+//@   requires c != nil && c.control != nil
+//@   assigns X.n, X.dir, X.file, X.val
+//@   ensures result == nil ==> X.n == old(X.n) + 1 && X.dir == c.path && X.file == "memory.max" && X.val == l
+//@ func pkg/cgroup.(*V2).SetProcLimit props C20
+//@   arith int
+//@   requires c != nil && c.control != nil
+//@   assigns X.n, X.dir, X.file, X.val
+//@   ensures result == nil ==> X.n == old(X.n) + 1 && X.dir == c.path && X.file == "pids.max" && X.val == l
+//@ func pkg/cgroup.(*V2).CPUUsage props C20
+//@   arith bv
+//@   requires c != nil
+//@   assigns nothing
+//@   callsite ReadFile: assert @C20 name == "cpu.stat"
+//@   callsite return: assert @C20 result.1 == nil ==> len(parts) == 2 && parts[0] == "usage_usec" && result.0 == uint64(v) * 1000
+//@   loop 0: invariant s != nil
+
+// v1: one accessor per controller directory (nil / empty path = controller not set up)
+//@ func pkg/cgroup.(*v1controller).ReadFile
+//@   arith int
+//@   nilsafe
+//@   assigns nothing
+//@ func pkg/cgroup.(*v1controller).WriteFile
+//@   arith int
+//@   nilsafe
+//@   assigns nothing
+//@   ensures (c == nil || len(c.path) == 0) ==> result != nil
+//@ func pkg/cgroup.(*v1controller).ReadUint props C20
+//@   arith int
+//@   nilsafe
+//@   assigns nothing
+//@   ensures (c == nil || len(c.path) == 0) ==> result.1 != nil
+//@   abstracts result.1 == nil ==> result.0 == cgval(c.path, filename)
+//@ func pkg/cgroup.(*v1controller).WriteUint props C20
+//@   arith int
+//@   nilsafe
+//@   assigns X.n, X.dir, X.file, X.val
+//@   abstracts result == nil && c != nil && len(c.path) != 0 ==> X.n == old(X.n) + 1 && X.dir == c.path && X.file == filename && X.val == i
+//@   abstracts !(result == nil && c != nil && len(c.path) != 0) ==> X.n == old(X.n)
+
+// v1: CPU time in ns straight from cpuacct.usage; memory in bytes from memory.usage_in_bytes /
+// memory.max_usage_in_bytes; limits to memory.limit_in_bytes / pids.max. A limit call that returns nil
+// has written the limit.
+//@ func pkg/cgroup.(*V1).CPUUsage props C20
+//@   arith int
+//@   requires c != nil
+//@   assigns nothing
+//@   ensures result.1 == nil ==> c.cpuacct != nil && result.0 == cgval(c.cpuacct.path, "cpuacct.usage")
+//@ func pkg/cgroup.(*V1).MemoryUsage props C20
+//@   arith int
+//@   requires c != nil
+//@   assigns nothing
+//@   ensures result.1 == nil ==> c.memory != nil && result.0 == cgval(c.memory.path, "memory.usage_in_bytes")
+//@ func pkg/cgroup.(*V1).MemoryMaxUsage props C20
+//@   arith int
+//@   requires c != nil
+//@   assigns nothing
+//@   ensures result.1 == nil ==> c.memory != nil && result.0 == cgval(c.memory.path, "memory.max_usage_in_bytes")
+//@ func pkg/cgroup.(*V1).SetMemoryLimit props C20
+//@   arith int
+//@   requires c != nil
+//@   assigns X.n, X.dir, X.file, X.val
+//@   ensures result == nil ==> X.n == old(X.n) + 1 && c.memory != nil && X.dir == c.memory.path && X.file == "memory.limit_in_bytes" && X.val == i
+//@ func pkg/cgroup.(*V1).SetProcLimit props C20
+//@   arith int
+//@   requires c != nil
+//@   assigns X.n, X.dir, X.file, X.val
+//@   ensures result == nil ==> X.n == old(X.n) + 1 && c.pids != nil && X.dir == c.pids.path && X.file == "pids.max" && X.val == i
